@@ -2,6 +2,15 @@
 # Regenerates MANIFEST.json from manifest_src.json (claims) — keeps the file schema-valid.
 import json, sys
 src = json.load(open('/verif/manifest_src.json'))
+# the guarded (build tag `verif`) contract commits in /repo: every commit whose message starts with "verif:"
+import subprocess
+try:
+    out = subprocess.run(['git', '-C', '/repo', 'log', '--reverse', '--format=%H', '--grep=^verif:'], capture_output=True, text=True, check=True).stdout.split()
+    if out:
+        src['hook_commits'] = out
+        json.dump(src, open('/verif/manifest_src.json', 'w'), indent=1)
+except Exception:
+    pass
 props = [json.loads(l) for l in open('/verif/properties.jsonl')]
 ids = [p['id'] for p in props]
 checks = []
